@@ -2,7 +2,8 @@
    Statements only; proofs are in Proofs/ConfigProofs.v; the tables (built-in ini, option ->
    ini key) are Gen/GenIni.v, regenerated from the pika source tree on every run. *)
 From Coq Require Import String Ascii List NArith Bool Permutation.
-From Pika Require Import Gen.GenIni Model.Config Proofs.ConfigExpandProofs Proofs.ConfigProofs.
+From Pika Require Import Gen.GenIni Model.Config Proofs.ConfigExpandProofs Proofs.ConfigExpandTermProofs
+  Proofs.ConfigExpandReadProofs Proofs.ConfigProofs Proofs.ConfigPlainEnvProofs.
 Import ListNotations.
 Open Scope string_scope.
 
@@ -433,3 +434,158 @@ Example ex_kw_effective_mask :
   (exists c, run [("PIKA_PROCESS_MASK", "0x3")] M8 "./prog" ["--pika:ignore-process-mask"; "--pika:threads=all"; "--pika:bind=none"] = Started c
              /\ c_threads c = 8%N).
 Proof. repeat split; eexists; (split; [vm_compute; reflexivity|reflexivity]). Qed.
+
+(* ---- round p12b: termination bound, guarded result theorem, the plain-environment predicate
+   (Proofs/ConfigExpandTermProofs.v, Proofs/ConfigPlainEnvProofs.v) *)
+
+(* TERMINATION BOUND.  If no text that can be substituted contains a dollar sign - every value of the
+   environment ([env_no_dollar], a forallb) and every stored entry ([look_no_dollar]); the defaults written
+   in the text need no hypothesis: their dollar signs are counted in [dollars s] - then section::expand,
+   expand_only and the store/read pair END for every text with fewer dollar signs than fuel, i.e.
+   (number of '$') + 1 nesting levels suffice, and the number of dollar signs never grows.  The bound is
+   tight ([ex_term_bound_tight]); with a '$' in a value there is no bound at all
+   (C16_expand_self_reference_loops). *)
+Theorem C16_expand_terminates_plain_values :
+  forall env look, env_no_dollar env = true -> look_no_dollar look ->
+  forall fuel k s, dollars s < fuel ->
+    xp_all env look fuel s <> XFuel /\ xp_only env look fuel k s <> XFuel /\
+    (fuel <= xfuel -> read_x env look k s <> XFuel) /\
+    (exists r, xp_all env look fuel s = XOk r /\ dollars r <= dollars s) /\
+    (exists r, xp_only env look fuel k s = XOk r /\ dollars r <= dollars s) /\
+    (fuel <= xfuel -> exists r, read_x env look k s = XOk r /\ dollars r <= dollars s).
+Proof.
+  intros env look He Hl fuel k s Hs.
+  destruct (expand_never_out_of_fuel env look He Hl fuel k s Hs) as [A [B C]].
+  destruct (expand_terminates_plain_values env look He Hl fuel k s Hs) as [D [E F]].
+  repeat split; assumption.
+Qed.
+Print Assumptions C16_expand_terminates_plain_values.
+
+Example ex_term_bound_tight :
+  xp_all [] no_entries 3 "$a$a$a" = XFuel /\ xp_all [] no_entries 4 "$a$a$a" = XOk "$a$a$a" /\
+  xp_all [("A", "va")] no_entries 2 "${A}${A}" = XFuel /\ xp_all [("A", "va")] no_entries 3 "${A}${A}" = XOk "vava" /\
+  env_no_dollar [("A", "va")] = true /\ look_no_dollar no_entries.
+Proof. repeat split; try (vm_compute; reflexivity). intros k v H. discriminate H. Qed.
+
+(* GUARDED RESULT THEOREM.  Guards: every value that can be substituted is free of '$' and of backslash
+   ([env_values_plain] - a forallb -, [look_values_plain]); the text is free of backslash and none of its
+   '$' is directly followed by '$', '}' or ']' ([text_guard], a boolean).  Then section::expand ends (fuel
+   > number of '$') with a text r that is INERT: behind every '$' of r stands nothing, or an ordinary
+   character, or a `{` with no `}` anywhere behind it, or a `[` with no `]` anywhere behind it.  Hence r
+   holds no `${ .. }` and no `$[ .. ]` ([closed_placeholder r = false]), no backslash, at most as many '$'
+   as s, and r is a fixpoint of expand and expand_only (guarded idempotence: the unguarded statement is
+   C16_expand_fixpoint_refuted).  Each guard is needed: C16_expand_fixpoint_refuted has the witnesses for
+   '$' in a value, backslash and `$$`; C16_expand_result_guards_needed the ones for `$}` / `$]` and for a
+   backslash in a VALUE. *)
+Theorem C16_expand_result_no_placeholder :
+  forall env look, env_values_plain env = true -> look_values_plain look ->
+  forall fuel s, text_guard s = true -> dollars s < fuel ->
+    exists r, xp_all env look fuel s = XOk r /\
+      inert r = true /\ closed_placeholder r = false /\ contains c_bs r = false /\ dollars r <= dollars s /\
+      (forall fuel' k, dollars r < fuel' ->
+         xp_all env look fuel' r = XOk r /\ xp_only env look fuel' k r = XOk r).
+Proof. exact expand_result_no_placeholder. Qed.
+Print Assumptions C16_expand_result_no_placeholder.
+
+(* an inert text is left alone (generalises C16_expand_fixpoint: noph s -> inert s) *)
+Theorem C16_expand_inert_fixpoint :
+  (forall env look fuel k s, inert s = true -> dollars s < fuel ->
+     xp_all env look fuel s = XOk s /\ xp_only env look fuel k s = XOk s) /\
+  (forall s, noph s = true -> inert s = true) /\
+  (forall s, inert s = true -> closed_placeholder s = false).
+Proof.
+  split; [|split; [exact noph_inert|exact inert_no_closed_placeholder]].
+  intros. split; [now apply xp_all_inert|now apply xp_only_inert].
+Qed.
+Print Assumptions C16_expand_inert_fixpoint.
+
+(* the two guards that C16_expand_fixpoint_refuted does not show: a '$' directly in front of the closing
+   delimiter of a default (the default `$` is glued to the text behind the placeholder), and a backslash
+   in a substituted value (it escapes the closing brace of the enclosing placeholder, and find_next
+   removes it) *)
+Theorem C16_expand_result_guards_needed :
+  (xp_all [] no_entries 10 "${U:$}{x}" = XOk "${x}" /\ closed_placeholder "${x}" = true /\
+   dnext_ok "${U:$}{x}" = false /\ env_values_plain [] = true) /\
+  (xp_all [] no_entries 10 "$[q:$]{x}" = XOk "${x}" /\ dnext_ok "$[q:$]{x}" = false) /\
+  (let env := [("X", "\")] in
+   xp_all env no_entries 10 "${A${X}}" = XOk "${A}" /\ text_guard "${A${X}}" = true /\
+   env_no_dollar env = true /\ env_values_plain env = false).
+Proof. repeat split; vm_compute; reflexivity. Qed.
+Print Assumptions C16_expand_result_guards_needed.
+
+Example ex_result_guarded :
+  let env := [("A", "va"); ("B", "{x}"); ("E", "")] in
+  let look := fun k => if String.eqb k "k" then Some "kv" else None in
+  env_values_plain env = true /\ look_values_plain look /\
+  text_guard "a$b${A}${E}$[k]$[q:${B}]${U:d$e}${open$[k]" = true /\
+  xp_all env look 20 "a$b${A}${E}$[k]$[q:${B}]${U:d$e}${open$[k]" = XOk "a$bvakv{x}d$e${openkv".
+Proof.
+  repeat split; try (vm_compute; reflexivity).
+  intros k v H. destruct (String.eqb k "k"); [injection H as <-; reflexivity|discriminate H].
+Qed.
+
+(* the same for an ENTRY: add_entry (expand_only with the entry's own key: every `${..}`, and `$[own key]`)
+   followed by get_entry (expand).  expand_only keeps `$[other.key]`, so what is STORED is not inert - but it
+   still meets the guard on texts (and has no more '$' than s), and what is READ is inert, free of closed
+   placeholders and a fixpoint, exactly as in C16_expand_result_no_placeholder.  [dollars s < xfuel]: the
+   nesting depth the executable model grants (100). *)
+Theorem C16_read_result_no_placeholder :
+  forall env look, env_values_plain env = true -> look_values_plain look ->
+  forall k s, text_guard s = true -> dollars s < xfuel ->
+    (exists r1, stored_x env look k s = XOk r1 /\ text_guard r1 = true /\ dollars r1 <= dollars s) /\
+    exists r, read_x env look k s = XOk r /\
+      inert r = true /\ closed_placeholder r = false /\ contains c_bs r = false /\ dollars r <= dollars s /\
+      (forall fuel' k', dollars r < fuel' ->
+         xp_all env look fuel' r = XOk r /\ xp_only env look fuel' k' r = XOk r).
+Proof. exact read_result_no_placeholder. Qed.
+Print Assumptions C16_read_result_no_placeholder.
+
+Example ex_read_guarded :
+  let env := [("A", "va"); ("B", "{x}"); ("E", "")] in
+  let look := fun k => if String.eqb k "k" then Some "kv" else if String.eqb k "me" then Some "own" else None in
+  let s := "a$b${A}${E}$[k]$[me]$[q:${B}]${U:d$e}${open$[k]" in
+  text_guard s = true /\ env_values_plain env = true /\
+  stored_x env look "me" s = XOk "a$bva$[k]own$[q:{x}]d$e${open$[k]" /\
+  read_x env look "me" s = XOk "a$bvakvown{x}d$e${openkv" /\
+  inert "a$bva$[k]own$[q:{x}]d$e${open$[k]" = false /\ inert "a$bvakvown{x}d$e${openkv" = true.
+Proof. repeat split; vm_compute; reflexivity. Qed.
+
+(* PRECEDENCE WITH A PLAIN ENVIRONMENT.  C16_cmdline_over_env_over_default and
+   C16_threads_keywords_precedence assume [env_plain env n d] for the variable of the setting; here the
+   hypothesis is ONE boolean over the whole environment, [env_all_plain env = forallb (fun kv => noexp (snd kv)) env]
+   (no value contains `${` / `$[`, every value has fewer than 90 '$'); the defaults of the table are plain
+   ([defaults_plain], computed over the regenerated table). *)
+Theorem C16_precedence_with_plain_env :
+  forall env, env_all_plain env = true ->
+  (forall opt key, In (opt, key) opt_key ->
+   forall raw n d, assoc key builtin_ini = Some raw -> placeholder raw = Some (n, d) ->
+   forall p cfgmap,
+     resolve env p cfgmap opt key =
+     match value_of opt p with
+     | Some v => v
+     | None => match assoc key cfgmap with
+               | Some v => v
+               | None => match getenv env n with Some v => v | None => d end
+               end
+     end) /\
+  (forall p cfg m ok f a c,
+     handle env p cfg m ok f a = Started c ->
+     assoc "pika.force_min_os_threads" cfg = None ->
+     exists it ic, eff_counts env p cfg m = Some (it, ic) /\
+       kw_count it ic (threads_text env p cfg) = Some (c_threads c)).
+Proof. exact precedence_with_plain_env. Qed.
+Print Assumptions C16_precedence_with_plain_env.
+
+(* a concrete environment with five PIKA_* variables (and two others, one with a harmless '$') meets it;
+   one whose PIKA_THREADS refers to another variable does not *)
+Example ex_plain_env_five :
+  let env := [("PIKA_THREADS", "4"); ("PIKA_SCHEDULER", "static"); ("PIKA_BIND", "compact");
+              ("PIKA_PROCESS_MASK", "0xff"); ("PIKA_LOG_LEVEL", "1"); ("HOME", "/home/u"); ("PS1", "\u$ ")] in
+  env_all_plain env = true /\
+  (exists c, run env M16 "./prog" [] = Started c /\ c_threads c = 4%N) /\
+  (exists c, run env M16 "./prog" ["--pika:threads=2"] = Started c /\ c_threads c = 2%N) /\
+  env_all_plain [("PIKA_THREADS", "${T}"); ("T", "3")] = false.
+Proof.
+  split; [vm_compute; reflexivity|]. split; [|split]; [| |vm_compute; reflexivity];
+    (eexists; split; [vm_compute; reflexivity|reflexivity]).
+Qed.
